@@ -8,7 +8,7 @@
    fixes/C29_gc_deleted_flag.patch, `lrun false` the Limiter as found. *)
 From Coq Require Import List NArith Bool.
 From K.Model Require Import C29.
-From K.Proof Require C29 C29_rc.
+From K.Proof Require C29 C29_rc C29_chk.
 Import ListNotations.
 Local Open Scope N_scope.
 
@@ -151,6 +151,15 @@ Print Assumptions C29_trap_runs_apart.
 Theorem C29_lim_check_sound : forall iv n ms, lim_check (lmrun true iv n linit ms) = true.
 Proof. exact Proof.C29.lim_check_sound. Qed.
 Print Assumptions C29_lim_check_sound.
+
+Theorem C29_rc_check_sound : forall cf n ms, wf_rops n ms = true ->
+  rc_check cf n ms (rmrun cf n rinit ms) = true.
+Proof. exact Proof.C29_chk.rc_check_sound. Qed.
+Print Assumptions C29_rc_check_sound.
+
+Theorem C29_trap_check_sound : forall iv ms, trap_check iv ms (tmrun iv (tinit 0) ms) = true.
+Proof. exact Proof.C29_chk.trap_check_sound. Qed.
+Print Assumptions C29_trap_check_sound.
 
 (* ---------------- non-vacuity ---------------- *)
 
